@@ -129,10 +129,11 @@ def configs(tier):
         for b1 in b1s:
             out.append(dict(srcs=srcs2, blocks=(b0, b1), fb=None))
     # C: three blocks by object, gates, with and without CBlock->SBlock feedback
+    gk3 = gk if tier != 'quick' else ('not', 'and', 'xor')
     for fb in (None, 0, 1):
-        for b0 in block_options(2, 0, gk, ('obj',), ('obj',), (), fb, ordered=False):
-            for b1 in block_options(2, 1, gk, ('obj',), ('obj',), (), fb, ordered=False):
-                for b2 in block_options(2, 2, gk, ('obj',), ('obj',), (), fb, ordered=False):
+        for b0 in block_options(2, 0, gk3, ('obj',), ('obj',), (), fb, ordered=False):
+            for b1 in block_options(2, 1, gk3, ('obj',), ('obj',), (), fb, ordered=False):
+                for b2 in block_options(2, 2, gk3, ('obj',), ('obj',), (), fb, ordered=False):
                     if fb is not None and not (uses(b1, ('f',)) or uses(b2, ('f',))):
                         continue
                     out.append(dict(srcs=srcs2, blocks=(b0, b1, b2), fb=fb))
